@@ -751,6 +751,86 @@ theorem kraus_roundtrip_residual (B : Basis K d (d * d)) (h : Orthonormal B) (hs
     rw [hsOfChoiSparseRaw_sub, ← e1, (hs_choi_hs B h hs).1]
   exact ⟨e1, e2, by rw [e2, frobSq_hsOfChoi B h]⟩
 
+/-! ## composition of basis changes, column-major round trip, linearity of the process matrix, Hermiticity -/
+
+/-- `convert_hs` / `convert_vec` compose: going `F → T → S` is going `F → S` when the intermediate basis is complete
+(e.g. basis → computational basis → another basis). -/
+theorem convert_comp {n : Nat} (F T S : Basis K d n) (hT : Complete T) (hs : Mat K n n) (v : Vec K n) :
+    convertHs T S (convertHs F T hs) = convertHs F S hs ∧ convertVec T S (convertVec F T v) = convertVec F S v := by
+  constructor
+  · apply Mat.toM_injective
+    rw [toM_convertHs, toM_convertHs, toM_convertHs]
+    calc (transU T S).toM * ((transU F T).toM * hs.toM * (transU T F).toM) * (transU S T).toM
+        = ((transU T S).toM * (transU F T).toM) * hs.toM * ((transU T F).toM * (transU S T).toM) := by
+          simp only [Matrix.mul_assoc]
+      _ = _ := by rw [transU_comp F T S hT, transU_comp S T F hT]
+  · apply Vec.toV_injective
+    rw [toV_convertVec, toV_convertVec, toV_convertVec, Matrix.mulVec_mulVec, transU_comp F T S hT]
+
+/-- the COLUMN-major computational basis is orthonormal too, so `convert_to_comp_basis("column_major")` followed by
+`convert_hs(·, comp_basis("column_major"), basis)` is the identity for an orthonormal basis (as for row-major). -/
+theorem comp_col_roundtrip (B : Basis K d (d * d)) (h : Orthonormal B) (hs : Mat K (d * d) (d * d)) (rm : Bool) :
+    Orthonormal (compBasis d rm : Basis K d (d * d)) ∧
+    convertHs (compBasis d rm) B (convertHs B (compBasis d rm) hs) = hs := by
+  have ho : Orthonormal (compBasis d rm : Basis K d (d * d)) := by
+    cases rm
+    · exact comp_col_orthonormal d
+    · exact comp_orthonormal d
+  exact ⟨ho, convertHs_roundtrip B (compBasis d rm) h (complete_of_orthonormal _ ho) hs⟩
+
+/-- `to_process_matrix_from_hs` is linear (it is the Choi matrix). -/
+theorem processMatrix_linear (B : Basis K d (d * d)) (a : K) (x y : Mat K (d * d) (d * d)) :
+    processMatrix B ((x.smul a).add y) = ((processMatrix B x).smul a).add (processMatrix B y) := by
+  rw [processMatrix_eq_choi, processMatrix_eq_choi, processMatrix_eq_choi, (choi_conversions_linear B a x y).1]
+
+/-- Hermiticity is carried both ways for a Hermitian basis: a real (self-conjugate) HS matrix has a Hermitian Choi matrix,
+and a Hermitian Choi matrix has a real HS matrix — so on Hermitian Choi matrices the guard of `truncate_hs` inside
+`to_hs_from_choi_with_sparsity` / `_with_dict` never fires. -/
+theorem choi_hermitian_iff_hs_real (B : Basis K d (d * d)) (hB : HermitianBasis B) (hs c : Mat K (d * d) (d * d)) :
+    ((∀ al be, star (hs.get al be) = hs.get al be) → IsHermitianMat (choiSparse B hs)) ∧
+    (IsHermitianMat c → ∀ al be, star ((hsOfChoiSparseRaw B c).get al be) = (hsOfChoiSparseRaw B c).get al be) := by
+  constructor
+  · intro hr i j
+    rw [choiSparse_get, choiSparse_get, star_sum]
+    apply Finset.sum_congr rfl; intro al _
+    rw [star_sum]
+    apply Finset.sum_congr rfl; intro be _
+    rw [star_mul', hr al be, bbcEntry_hermitian B hB]
+  · intro hc al be
+    rw [hsOfChoiSparseRaw_get, star_sum]
+    simp only [star_sum, star_mul', star_star]
+    rw [Finset.sum_comm]
+    apply Finset.sum_congr rfl; intro i _
+    apply Finset.sum_congr rfl; intro j _
+    rw [← bbcEntry_hermitian B hB al be j i, hc i j]
+
+/-- Kraus → HS as executed NEVER raises on a Hermitian orthonormal basis (any threshold, any non-empty operator list): the HS
+matrix of `Σ K ⊗ conj K` has real entries, so `truncate_hs` has nothing to reject. -/
+theorem hsOfKraus_never_rejected {d : Nat} (eps : Rat) (B : Basis CRat d (d * d)) (h : Orthonormal B) (hB : HermitianBasis B)
+    (ks : List (Mat CRat d d)) (hne : ks ≠ []) : ∃ r, hsOfKraus eps B ks = .ok r := by
+  unfold hsOfKraus
+  have hemp : ks.isEmpty = false := by cases ks <;> simp_all
+  rw [hemp]
+  simp only [Bool.false_eq_true, if_false]
+  rw [truncList_isOk_iff]
+  intro z hz
+  obtain ⟨x, rfl⟩ := (mem_toList_iff_get _ _).1 hz
+  right
+  apply CRat.im_eq_zero_of_star_eq
+  rw [flat_get, (kraus_roundtrip_residual B h Mat.zero ks).1]
+  apply (choi_hermitian_iff_hs_real B hB Mat.zero (choiOfKraus ks)).2
+  intro i j
+  simp only [choiOfKraus, Mat.get_ofFn]
+  have hsum : ∀ l : List (Mat CRat d d),
+      star ((l.map fun k => (flat k).get j * star ((flat k).get i)).sum)
+        = (l.map fun k => (flat k).get i * star ((flat k).get j)).sum := by
+    intro l
+    induction l with
+    | nil => simp
+    | cons a l ih =>
+      rw [List.map_cons, List.sum_cons, star_add, ih, List.map_cons, List.sum_cons, star_mul', star_star, mul_comm]
+  exact hsum ks
+
 /-! ## tie to the source: the model is built from the terms GENERATED from quara's code (lean/QGen/C02.lean)
 
 `harness/c02gen.py` locates each decisive expression of the conversion code in the working tree (index order,
@@ -878,7 +958,8 @@ theorem gen_convert_checks :
 /-- `to_kraus_matrices_from_hs` is assembled from the generated pieces: the CP verdict (`is_cp` =
 `is_positive_semidefinite` of the sparse Choi matrix: Hermitian test, close-to-zero eigenvalues deleted, the rest `>= 0`), the
 zero filter `not np.isclose(λ, 0, atol=Settings.get_atol())`, `sorted(…, key=λ, reverse=True)`, the scaling
-`np.sqrt(λ) * v.reshape((dim, dim))`; `krausFull` adds the phase step on each. -/
+`np.sqrt(λ) * v.reshape((dim, dim))`; `krausFull` adds the generated phase step (first non-zero entry, `value < 0` in numpy's
+complex order, `1 / (value / abs(value)) * k`, the loop's `else`) on each. -/
 theorem gen_kraus_extraction {d : Nat} (B : Basis CRat d (d * d)) (hs : Mat CRat (d * d) (d * d)) (eigs : List (EigPair d))
     (atol atolS : Rat) :
     isCp (choiSparse B hs) eigs atol = QGen.C02.isCpGen (QGen.C02.toChoiFromVarChoi B hs) eigs atol ∧
@@ -888,7 +969,9 @@ theorem gen_kraus_extraction {d : Nat} (B : Basis CRat d (d * d)) (hs : Mat CRat
     krausFull B hs eigs atol atolS
       = (if !QGen.C02.isCpGen (choiSparse B hs) eigs atol then []
          else (QGen.C02.krausSort (eigs.filter (QGen.C02.krausKeep atolS))).map
-            fun e => phaseFix (QGen.C02.krausScale e) e.absScaled) := ⟨rfl, rfl, rfl⟩
+            fun e => QGen.C02.phaseFixGen (QGen.C02.krausScale e) e.absScaled) ∧
+    (∀ (k : Mat CRat d d) (a : Vec Rat (d * d)), phaseFactor k a = QGen.C02.phaseFactorGen k a ∧ phaseFix k a = QGen.C02.phaseFixGen k a) :=
+  ⟨rfl, rfl, rfl, fun _ _ => ⟨rfl, rfl⟩⟩
 
 /-- `convert_var_to_hs(…, True)` inserts the row `np.eye(1, dim²)` at the generated index (0) and shifts every other row down;
 `convert_hs_to_var(…, True)` deletes the row with the generated index (0). -/
@@ -1031,5 +1114,16 @@ example : mpConvertBasis (compBasis 2 true) B0 (mpConvertBasis B0 (compBasis 2 t
     (complete_of_orthonormal _ (comp_orthonormal 2)) [idHs, yHs] B0 [] Mat.zero).1
 example : convertHsChecks 4 3 2 4 2 4 = .error .notSquare ∧ convertHsChecks 3 3 2 4 2 4 = .error .dimNotSquare ∧
     convertHsChecks 4 4 2 4 3 9 = .error .dimMismatch ∧ convertHsChecks 4 4 2 4 2 5 = .error .lenMismatch := by decide +kernel
+
+-- extension round 3: B0 → column-major computational basis → row-major computational basis is B0 → row-major directly; the
+-- column-major round trip; Hermitian Choi matrix of a real HS matrix; Kraus → HS of the complex operators `yKraus` never raises
+example : convertHs (compBasis 2 false) (compBasis 2 true) (convertHs B0 (compBasis 2 false) yHs) = convertHs B0 (compBasis 2 true) yHs :=
+  (convert_comp B0 (compBasis 2 false) (compBasis 2 true) (complete_of_orthonormal _ (comp_col_orthonormal 2)) yHs Vec.zero).1
+example : convertHs (compBasis 2 false) B0 (convertHs B0 (compBasis 2 false) yHs) = yHs :=
+  (comp_col_roundtrip B0 B0_orthonormal yHs false).2
+example : IsHermitianMat (choiSparse B0 idHs) :=
+  (choi_hermitian_iff_hs_real B0 B0_hermitian idHs idHs).1 (by intro al be; revert al be; decide +kernel)
+example : ∃ r, hsOfKraus (1 / 1000) B0 yKraus = .ok r :=
+  hsOfKraus_never_rejected (1 / 1000) B0 B0_orthonormal B0_hermitian yKraus (by decide)
 
 end QM.C02
